@@ -237,11 +237,24 @@ func ruleADDR1(c *Ctx) {
 		}
 	}
 	for _, f := range p.FuncsIn("json") {
-		if f.Body() == nil || f.Lit == nil || strings.Contains(f.Name, "$") {
+		if f.Body() == nil || f.Lit == nil {
 			continue
 		}
 		i := strings.Index(f.Name, ":marshal")
-		if i < 0 || !installers[f.Name[:i]] || strings.Contains(f.Name[:i], "makeDefaultArshaler") {
+		isInstalled := i >= 0 && installers[f.Name[:i]] && !strings.Contains(f.Name[:i], "makeDefaultArshaler") && !strings.Contains(f.Name, "$")
+		// or the closure returned by a constructor function of the installers' scope, with the marshaler signature
+		if !isInstalled {
+			if d := p.enclosingDecl(f); d != nil && d != f && installers[d.Name] && d.Name != "json.makeMethodArshaler" {
+				if t := f.Info().TypeOf(f.Lit); t != nil {
+					if sg, ok := t.Underlying().(*types.Signature); ok && marshalerSig(p) != nil && types.Identical(sg, marshalerSig(p)) {
+						if _, isRet := p.Parent(f.File, f.Lit).(*ast.ReturnStmt); isRet {
+							isInstalled = true
+						}
+					}
+				}
+			}
+		}
+		if !isInstalled {
 			continue
 		}
 		uses := false
